@@ -262,7 +262,9 @@ Qed.
    (flex factor `fr(NaN)`; proportion = flex_factor is what distribute_item_space_to_base_size passes for a flexible batch) a round
    accepts no increase (`NaN > 0.0` is false) and leaves space and tracks unchanged, so the exit test is never reached with ANY fuel:
    the model returns the unchanged state after 2n+8 rounds, the Rust `while space_to_distribute > THRESHOLD` would not return.
-   Not an input the style generators or CSS produce (see notes/FUEL.md); NOT run against the implementation (it would hang the harness). *)
+   REPRODUCED on the implementation (notes/FUEL.nanfr.rs, a standalone program, run under `timeout 5`): a grid with
+   `grid_template_columns: [fr(NaN)]` and one 50x20 child, compute_layout under max-content, does not return (with fr(1.0) it returns
+   50x20).  Not an input CSS or the style generators produce; proposed as a known finding under C03 (notes/FUEL.md). *)
 Definition C03_ex_nan_track : list (TV.Model.GridTracks.track TV.Num.QNum.XQ) :=
   let f := TV.Num.QNum.Fin in
   let z := f 0%Q in
